@@ -115,6 +115,10 @@ class Policy(object):
     def compare_raises(self, node, frame):
         return frozenset()
 
+    def subscript_store_raises(self, target, frame):
+        """atoms a subscript store `obj[k] = v` may raise (the container's __setitem__)"""
+        return frozenset()
+
     def truth_raises(self, test, frame):
         """atoms the truth test of expression `test` may raise (user objects with a raising __bool__ / __len__)"""
         return frozenset()
@@ -632,11 +636,24 @@ class Builder(object):
                 inner = self.inline_value(synth, tg, ctx, frame)
                 return self.expr(s.value, ctx.w(next=inner), frame)
         tg_exprs = []
+        store_raises = set()
         for t in s.targets:
             if isinstance(t, ast.Subscript):
                 tg_exprs.extend([t.value, t.slice])
+                store_raises |= set(self.policy.subscript_store_raises(t, frame))
             elif isinstance(t, ast.Attribute):
                 tg_exprs.append(t.value)
+        if store_raises:
+            # the store itself is a call into the container's __setitem__ with an effect: the statement runs on the normal edge only
+            inner = self.simple(s, ctx, frame, [], what='assign')
+            n = self.node('truth', s, frame, what='subscript store ' + norm(s.targets[0]))
+            n.edge('next', inner)
+            for a in sorted(store_raises):
+                n.edge('exc:' + a, ctx.exc[a])
+            nxt = n
+            for e in reversed([s.value] + tg_exprs):
+                nxt = self.expr(e, ctx.w(next=nxt), frame)
+            return nxt
         return self.simple(s, ctx, frame, [s.value] + tg_exprs, what='assign')
 
     def s_AugAssign(self, s, ctx, frame):
